@@ -53,6 +53,10 @@ impl Outcome {
     pub fn ok(&self) -> bool {
         self.error.is_none() && self.panic.is_none()
     }
+    /// the input was stopped by the harness's step budget (inconclusive, never a finding)
+    pub fn budget_exhausted(&self) -> bool {
+        self.error.as_ref().map(|e| e.message.contains(numbat::verif_hooks::STEP_BUDGET_MESSAGE)).unwrap_or(false)
+    }
     pub fn err_kind(&self) -> Option<&str> {
         self.error.as_ref().map(|e| e.kind.as_str())
     }
@@ -191,6 +195,9 @@ pub fn render_diagnostics(ctx: &Context, e: &NumbatError) -> Result<String, (Str
     })
 }
 
+/// VM instructions one input may execute (about a second of run time)
+pub const STEP_BUDGET: u64 = 30_000_000;
+
 pub struct EvalOpts {
     pub render_diagnostics: bool,
     pub source: CodeSource,
@@ -219,6 +226,8 @@ pub fn eval_with(ctx: &mut Context, code: &str, opts: &EvalOpts) -> Outcome {
     };
     let mut out = Outcome::default();
     let source = opts.source.clone();
+    // bound run time and memory of generated programs (guarded hook in the VM loop)
+    vh::set_step_budget(STEP_BUDGET);
     let r = catch(|| {
         let res = ctx.interpret_with_settings(&mut settings, code, source);
         match res {
@@ -251,7 +260,18 @@ pub fn eval_with(ctx: &mut Context, code: &str, opts: &EvalOpts) -> Outcome {
             out.result_text = text;
         }
         Ok(Err(e)) => {
-            out.error = Some(classify_error(&e));
+            // rendering the message can itself panic (that is then a crash of this input)
+            match catch(|| classify_error(&e)) {
+                Ok(info) => out.error = Some(info),
+                Err(p) => {
+                    out.error = Some(ErrInfo {
+                        stage: Stage::Runtime,
+                        kind: "unrenderable".into(),
+                        message: String::new(),
+                    });
+                    out.panic = Some(p);
+                }
+            }
             if opts.render_diagnostics {
                 match render_diagnostics(ctx, &e) {
                     Ok(s) => out.diagnostics = Some(s),
